@@ -30,11 +30,18 @@ func buildHostileProfile(s *Sim, r *rand.Rand, p *ProfileParams, arm func(string
 	p.SvcOps = 8 + r.IntN(24)
 	s.Cfg.Gw.ReferenceThrottle = rpick(r, []int{0, 0, 2})
 	buildCoreWorld(s, r, 3+r.IntN(4))
-	if r.IntN(3) == 0 {
+	switch r.IntN(3) {
+	case 0:
 		p.Faults["qevent"] = true
 		p.Strict = false
 		addQueryResources(s, r)
 		sort.Strings(p.RIDs)
+	case 1:
+		// system resets, whose re-fetches may be answered with garbage or with
+		// a resource of the other type
+		p.Faults["reset"] = true
+		p.Strict = false
+		s.Cfg.Gw.ResetThrottle = rpick(r, []int{0, 0, 1, 3})
 	}
 }
 
@@ -95,12 +102,19 @@ func genHostileSvcOp(s *Sim) (Decision, bool) {
 	if s.Cfg.P.fault("qevent") && x < 0.5 {
 		return genQuerySvcOp(s)
 	}
+	if s.Cfg.P.fault("reset") && x < 0.45 {
+		return svcDecision(&SvcOp{Op: "reset", Res: []string{pickOne(s, resetPatterns)}}), true
+	}
 	return Decision{}, false
 }
 
 // genHostileOutcome: malformed answers.
 func genHostileOutcome(s *Sim, r *Req, draining bool) string {
-	if s.calm || !s.chance(0.1) {
+	rate := 0.1
+	if r.Rf == 2 {
+		rate = 0.3
+	}
+	if s.calm || !s.chance(rate) {
 		if r.Type == "query" {
 			return genQueryOutcome(s, r, draining)
 		}
